@@ -21,7 +21,8 @@ W=$V/.work/$H
 [ "$REPO" != /repo ] && W=$V/.work/scratch-$H   # builds for scratch copies are removed by whoever made the copy
 if [ ! -f $W/overlay.json ]; then
   # drop stale generations (keep disk small)
-  [ "$REPO" = /repo ] && for d in $V/.work/[0-9a-f][0-9a-f][0-9a-f][0-9a-f][0-9a-f][0-9a-f][0-9a-f][0-9a-f][0-9a-f][0-9a-f][0-9a-f][0-9a-f][0-9a-f][0-9a-f][0-9a-f][0-9a-f]/; do [ "$d" != "$W/" ] && rm -rf "$d"; done 2>/dev/null
+  # (only generations untouched for 90 minutes: a check that is still running must keep its binaries)
+  [ "$REPO" = /repo ] && find $V/.work -maxdepth 1 -type d -regextype posix-extended -regex '.*/[0-9a-f]{16}' -mmin +90 ! -path "$W" -exec rm -rf {} + 2>/dev/null
   mkdir -p $W
   $V/.bin/instrument -repo $REPO -out $W >&2 || { echo "HARNESS-BROKEN instrumentation failed" >&2; rm -f $W/overlay.json; exit 2; }
 fi
